@@ -19,8 +19,18 @@ LexLess(a, b) == IF b = <<>> THEN FALSE
                  ELSE IF a[1] > b[1] THEN FALSE
                  ELSE LexLess(Tail(a), Tail(b))
 
-\* the installed path of a destination: "./x" and "/x" both name /x
-NormalPath(dest) == IF dest # <<>> /\ dest[1] = 46 THEN Tail(dest) ELSE dest
+\* the installed path of a destination: "./x" and "/x" both name /x, and so do spellings with a repeated slash, a "."
+\* component or a trailing slash ("/etc//x", "/etc/./x", "/etc/x/", "/etc/x/.")
+RECURSIVE SplitSlash(_, _, _)
+SplitSlash(s, i, cur) == IF i > Len(s) THEN <<cur>>
+                         ELSE IF s[i] = 47 THEN <<cur>> \o SplitSlash(s, i + 1, <<>>)
+                         ELSE SplitSlash(s, i + 1, Append(cur, s[i]))
+RECURSIVE JoinSlash(_)
+JoinSlash(cs) == IF cs = <<>> THEN <<>> ELSE <<47>> \o cs[1] \o JoinSlash(Tail(cs))
+NormalPath(dest) ==
+    LET d == IF dest # <<>> /\ dest[1] = 46 /\ (Len(dest) = 1 \/ dest[2] = 47) THEN Tail(dest) ELSE dest
+        cs == SelectSeq(SplitSlash(d, 1, <<>>), LAMBDA c : c # <<>> /\ c # <<46>>)
+    IN IF cs = <<>> THEN <<47>> ELSE JoinSlash(cs)
 \* files are listed in the order of their archive names "." ++ path
 FileList(files) == SortSeq(files, LAMBDA f, g : LexLess(NormalPath(f.dest), NormalPath(g.dest)))
 
